@@ -121,6 +121,7 @@ func runC01(c *Ctx) {
 	c01PnameWidth(c)
 	c12PrefixLen(c) // CIDR containment with IPv4 as IPv4-mapped: key length rule shared with C12
 	c.R.Floor("PARSENUM", parseNumSites(c, "PARSENUM", []string{"component/routing"}, func(f string) bool { return f == "function_parser.go" || f == "matcher_builder.go" }), 2)
+	scanIsStateless(c, "SCAN", "control", "RoutingMatcher.Match", []string{"goodSubrule", "badRule", "must"})
 }
 
 // ---- (3) lowering -------------------------------------------------------------
